@@ -279,7 +279,8 @@ func boolInt(b bool) int {
 type hsEdit struct {
 	Dir int    `json:"dir"`
 	Msg int    `json:"msg"` // index (modulo the number seen so far is NOT applied: exact index among clear-text handshake records)
-	Op  string `json:"op"`  // empty | shrink | set | dropext | dupext
+	Op  string `json:"op"`  // empty | shrink | set | setvec | echo_sid | dropext | dupext
+	Data []byte `json:"data,omitempty"` // setvec: the new content of the vector; echo_sid: filled in at run time with the client's session id
 	Ext int    `json:"ext"` // >= 0: prefer fields inside this extension type; -1: any field
 	Sel int    `json:"sel"` // selector among the candidate fields
 	Val int    `json:"val"` // set: the value written (low bytes)
@@ -327,7 +328,53 @@ func applyHSEdit(typ byte, body []byte, e hsEdit) (out []byte, ok bool) {
 		}
 		return append(append(append([]byte(nil), nb[:p]...), ins...), nb[p:]...)
 	}
+	replaceRange := func(s0, en int, ins []byte) []byte {
+		// replace body[s0:en] by ins and adjust every vector that encloses the range
+		nb := append([]byte(nil), body...)
+		d := len(ins) - (en - s0)
+		for _, v := range inf.Vecs {
+			if v.LenOff+v.W <= s0 && v.End >= en {
+				n := 0
+				for i := 0; i < v.W; i++ {
+					n = n<<8 | int(nb[v.LenOff+i])
+				}
+				n += d
+				if n < 0 || n >= 1<<(8*uint(v.W)) {
+					return nil
+				}
+				for i := v.W - 1; i >= 0; i-- {
+					nb[v.LenOff+i] = byte(n)
+					n >>= 8
+				}
+			}
+		}
+		return append(append(append([]byte(nil), nb[:s0]...), ins...), nb[en:]...)
+	}
 	switch e.Op {
+	case "echo_sid":
+		// ServerHello.session_id := the session id the client sent (a server that caches sessions by id echoes it;
+		// RFC 5246 7.4.1.3) — here also when the client has nothing to resume
+		if typ != 2 || len(inf.Vecs) == 0 || inf.Vecs[0].LenOff != 34 || len(e.Data) == 0 {
+			return nil, false
+		}
+		v := inf.Vecs[0]
+		nb := replaceRange(v.LenOff+v.W, v.End, e.Data)
+		return nb, nb != nil
+	case "setvec":
+		var cand []vecField
+		for _, v := range inf.Vecs {
+			if e.Ext >= 0 && v.Ext != e.Ext {
+				continue
+			}
+			cand = append(cand, v)
+		}
+		if len(cand) == 0 {
+			return nil, false
+		}
+		sort.Slice(cand, func(i, j int) bool { return cand[i].LenOff < cand[j].LenOff })
+		v := cand[e.Sel%len(cand)]
+		nb := replaceRange(v.LenOff+v.W, v.End, e.Data)
+		return nb, nb != nil
 	case "empty", "shrink":
 		var cand []vecField
 		for _, v := range inf.Vecs {
